@@ -1623,13 +1623,17 @@ class Exec:
         v = self.eval(node, st)
         if isinstance(v, Opaque) and v.name == 'np.newaxis':
             return NEWAXIS
-        if v is None and isinstance(node, ast.Constant):
-            return NEWAXIS          # np.newaxis is None
         return v
 
     def expr_Subscript(self, node, st):
         base = self.eval(node.value, st)
         idx = self.eval_index(node.slice, st)
+        if isinstance(base, (NDRef, ArrayVal)) and not getattr(base, 'is_list', False):
+            # on an array, None in an index is np.newaxis (on a dict it is a key)
+            if idx is None:
+                idx = NEWAXIS
+            elif isinstance(idx, tuple) and any(x is None for x in idx):
+                idx = tuple(NEWAXIS if x is None else x for x in idx)
         return self.getitem(base, idx, st, node)
 
     def getitem(self, base, idx, st, node):
